@@ -164,6 +164,9 @@ pub struct Ctx {
 
 impl Ctx {
     pub fn emit(&self, ev: Ev) {
+        if std::env::var_os("MQV_LIVE").is_some() {
+            eprintln!("{:?} {}", std::time::SystemTime::now().duration_since(std::time::UNIX_EPOCH).unwrap().as_millis() % 100000, ev.json());
+        }
         EVENTS.with(|e| e.borrow_mut().push(ev));
     }
     fn new_h(&self) -> i64 {
@@ -1086,6 +1089,8 @@ impl Peer {
                 "PUBLISH" if t.qos == 1 => self.owed.push(("puback", t.id)),
                 "PUBLISH" if t.qos == 2 => self.owed.push(("pubrec", t.id)),
                 "PUBREL" => self.owed.push(("pubcomp", t.id)),
+                // inbound QoS 2: an orderly peer answers PUBREC (success) with PUBREL
+                "PUBREC" if t.reason < 0x80 => self.owed.push(("pubrel", t.id)),
                 "SUBSCRIBE" => self.owed.push(("suback", t.id)),
                 "UNSUBSCRIBE" => self.owed.push(("unsuback", t.id)),
                 _ => {}
@@ -1101,6 +1106,7 @@ impl Peer {
             "PUBCOMP" => "pubcomp",
             "SUBACK" => "suback",
             "UNSUBACK" => "unsuback",
+            "PUBREL" => "pubrel",
             _ => return,
         };
         if let Some(i) = self.owed.iter().position(|(a, id)| *a == k && *id == t.id) {
@@ -1456,7 +1462,12 @@ pub async fn run_conn(ctx: Rc<Ctx>, cmds: Vec<Value>) {
                 }
             }
             "complete" => {
-                let h = c.get("h").and_then(Value::as_i64).unwrap_or(0);
+                let mut h = c.get("h").and_then(Value::as_i64).unwrap_or(0);
+                if let Some(j) = c.get("j").and_then(Value::as_i64) {
+                    let mut hs: Vec<i64> = ctx.gates.borrow().keys().copied().collect();
+                    hs.sort_unstable();
+                    h = hs.get(j as usize).copied().unwrap_or(0);
+                }
                 let tx = ctx.gates.borrow_mut().remove(&h);
                 if let Some(tx) = tx {
                     let _ = tx.send(Outcome::from(c));
@@ -1618,6 +1629,34 @@ pub async fn run_conn(ctx: Rc<Ctx>, cmds: Vec<Value>) {
                 }
                 ctx.emit(Ev::new("settled").s(pending).n(rounds).r(snd.receipts.len() as i64));
             }
+            "drain" => {
+                // open every gate (outcome ok) until no gate is left; then report what the
+                // endpoint has left unread
+                let mut rounds = 0;
+                for _ in 0..256 {
+                    let mut hs: Vec<i64> = ctx.gates.borrow().keys().copied().collect();
+                    if hs.is_empty() {
+                        break;
+                    }
+                    hs.sort_unstable();
+                    for h in hs {
+                        let tx = ctx.gates.borrow_mut().remove(&h);
+                        if let Some(tx) = tx {
+                            let _ = tx.send(Outcome {
+                                res: "ok".into(),
+                                read: c.get("read").and_then(Value::as_str).unwrap_or("").to_string(),
+                                code: 0,
+                            });
+                        }
+                        idle().await;
+                        peer.drain(&ctx);
+                    }
+                    rounds += 1;
+                }
+                let unread = if peer_keep.is_none() { peer.io.remote_buffer(|b| b.len()) } else { 0 };
+                let open = ctx.gates.borrow().len();
+                ctx.emit(Ev::new("final").s(open as i64).n(unread as i64).r(rounds));
+            }
             "idle" | "" => {}
             other => panic!("unknown command {other}"),
         }
@@ -1645,6 +1684,11 @@ pub async fn run_conn(ctx: Rc<Ctx>, cmds: Vec<Value>) {
                 idle().await;
                 peer.drain(&ctx);
             }
+        }
+        // a busy-looping connection task was cut short by the driver
+        let spins = crate::rt::SPINS.with(|c| c.replace(0));
+        if spins > 0 {
+            ctx.emit(Ev::new("spin").n(spins as i64));
         }
         // quiescence snapshot
         let (credit, open, ready) = {
